@@ -409,19 +409,22 @@ def switches(c1: int, c2: int, a1: int, s1: bytes, a2: int, s2: bytes, tag: int,
 
 @harness(pre=_PAIRPRE[:4] + ["0 <= fl <= 3", "len(trail) <= 1"], post="_", timeout=420,
          note="FlagSwitch: children present exactly for the set flag bits (all 4 subsets), keyed by member (non-pod) or "
-              "name (pod), for every pair of leaves",
+              "name (pod), value dict in spec order or reversed, for every pair of leaves",
          covers=(_S + "FlagSwitch.serialize", _S + "FlagSwitch.deserialize", _S + "IntFlag.encode"))
 def flag_switch(c1: int, c2: int, a1: int, s1: bytes, a2: int, s2: bytes, fl: int, big: bool, pod: bool,
-                trail: bytes) -> bool:
+                trail: bytes, rev: bool) -> bool:
     l1, l2 = LEAVES[PAIR[small(c1, 0, NP - 1)]], LEAVES[PAIR[small(c2, 0, NP - 1)]]
     fl = small(fl, 0, 3)
     fs = se.FlagSwitch(se.IntFlag(F, se.U8), {F.A: l1.spec, F.B: l2.spec})
-    v = {}
+    items = []
     if fl % 2:
-        v["A" if pod else F.A] = l1.val(pod, a1, s1)
+        items.append(("A" if pod else F.A, l1.val(pod, a1, s1)))
     if fl // 2:
-        v["B" if pod else F.B] = l2.val(pod, a2, s2)
-    return roundtrip(fs, v, big, pod, trail)
+        items.append(("B" if pod else F.B, l2.val(pod, a2, s2)))
+    want = dict(items)           # what the reader returns: members in the spec's order
+    if rev:
+        items.reverse()          # a value dict need not list its members in the spec's order
+    return roundtrip(fs, dict(items), big, pod, trail, want=want)
 
 
 @harness(pre=["0 <= c < NL", "LEAVES[small(c, 0, NL - 1)].dom(a, s)", "len(trail) <= 1", "0 <= k <= 5"], post="_",
